@@ -1,1 +1,3 @@
+import XtModel.Model.Wire
 import XtModel.Model.Encoding
+import XtModel.Props.C07
